@@ -38,7 +38,7 @@ Definition HDR_TAGS : list N :=
 Definition is_hdr_tok (t : bytes) : bool := existsb (fun h => beq (dec h) t) HDR_TAGS.
 
 Definition wire_item (raw : bytes) : item :=
-  let t := tokens raw in
+  let t := ftokens raw in
   (match tok_get (dec T_MsgType) t with Some x => x | None => [] end,
    filter (fun tv => negb (is_hdr_tok (fst tv))) t).
 
@@ -80,10 +80,20 @@ Fixpoint is_merge (w : list item) (ths : list (list item)) : bool :=
   end.
 
 (* ---- numbers ------------------------------------------------------------------------------------------------ *)
+(* C17's new_msg_of (classification of a wire message: None = PossDup or not a numbered message; Some (administrative?,
+   MsgSeqNum, bytes)) over the linear tokenizer *)
+Definition fnew_msg_of (raw : bytes) : option (bool * N * bytes) :=
+  let t := ftokens raw in
+  if flag_y (tok_get (dec T_PossDupFlag) t) then None
+  else match tok_get (dec T_MsgType) t, tok_get (dec T_MsgSeqNum) t with
+       | Some ty, Some v => match undec v with Some n => Some (session_type ty, n, raw) | None => None end
+       | _, _ => None
+       end.
+
 Fixpoint numbered_from (n : N) (ws : list bytes) : bool :=
   match ws with
   | [] => true
-  | w :: ws' => match new_msg_of w with
+  | w :: ws' => match fnew_msg_of w with
                 | Some (_, k, _) => (k =? n) && numbered_from (n + 1) ws'
                 | None => false
                 end
@@ -92,7 +102,7 @@ Fixpoint numbered_from (n : N) (ws : list bytes) : bool :=
 (* ---- store ---------------------------------------------------------------------------------------------------- *)
 Definition stored_ok (attached : bool) (stored : list (N * bytes)) (ws : list bytes) : bool :=
   negb attached ||
-  forallb (fun w => match new_msg_of w with Some x => msg_ok stored x | None => false end) ws.
+  forallb (fun w => match fnew_msg_of w with Some x => msg_ok stored x | None => false end) ws.
 
 (* ---- the oracle for one concurrent phase -------------------------------------------------------------------- *)
 Definition c25_phase_ok (start : N) (subm : list (list item)) (wire : list bytes) (next : N)
